@@ -96,29 +96,71 @@ func jsonMarshal(t *Thread, iv *IfaceVal) Value {
 		b = blob{v: deepCopy(iv.V, iv.T, map[*Cell]*Cell{}), t: iv.T}
 	}
 	ex.blobs[fmt.Sprint(id)] = b
-	bs := []*Term{MkVar(blobName(id, 0), 8), MkVar(blobName(id, 1), 8)}
-	return byteSliceOf(bs)
+	// the text is opaque except for its first character, which tells the kind of JSON value, and for the
+	// fact that JSON text contains no raw line breaks
+	first := byte('{')
+	if iv == nil {
+		first = 'n'
+	} else {
+		v, vt := iv.V, iv.T
+		for {
+			if c, ok := v.(*Cell); ok {
+				if c == nil {
+					first = 'n'
+					break
+				}
+				v, vt = c.Load(), c.T
+				continue
+			}
+			break
+		}
+		if first != 'n' {
+			switch vt.Underlying().(type) {
+			case *types.Struct, *types.Map:
+				first = '{'
+				if m, ok := v.(*MapObj); ok && m == nil {
+					first = 'n'
+				}
+			case *types.Slice, *types.Array:
+				first = '['
+				if sl, ok := v.(*SliceVal); ok && sl.Arr == nil {
+					first = 'n'
+				}
+			case *types.Basic:
+				switch {
+				case isString(vt):
+					first = '"'
+				case isBoolT(vt):
+					first = 't'
+				default:
+					first = '0'
+				}
+			}
+		}
+	}
+	v0, v1 := MkVar(blobName(id, 0), 8), MkVar(blobName(id, 1), 8)
+	for _, v := range []*Term{v0, v1} {
+		ex.pc = append(ex.pc, Not(Eq(v, MkBV('\n', 8))), Not(Eq(v, MkBV('\r', 8))))
+	}
+	return byteSliceOf([]*Term{MkBV(uint64(first), 8), v0, v1})
 }
 
 func blobOf(ex *Exec, data *SliceVal) (blob, bool) {
-	if data.Len < 1 {
+	if data.Len < 3 {
 		return blob{}, false
 	}
-	t0, ok := data.Arr.Elem(data.Off).V.(*Term)
+	t0, ok := data.Arr.Elem(data.Off + 1).V.(*Term)
 	if !ok || t0.Op != OpVar || !strings.HasPrefix(t0.Name, "jsonblob!") || !strings.HasSuffix(t0.Name, "!0") {
 		return blob{}, false
 	}
-	if data.Len < 2 {
-		return blob{}, false
-	}
 	// JSON text may be followed by white space (status files end with a newline)
-	for i := 2; i < data.Len; i++ {
+	for i := 3; i < data.Len; i++ {
 		b, ok := data.Arr.Elem(data.Off + i).V.(*Term)
 		if !ok || !b.IsConst() || !(b.BV == '\n' || b.BV == ' ' || b.BV == '\t' || b.BV == '\r') {
 			return blob{}, false
 		}
 	}
-	t1, ok := data.Arr.Elem(data.Off + 1).V.(*Term)
+	t1, ok := data.Arr.Elem(data.Off + 2).V.(*Term)
 	if !ok || t1.Op != OpVar || t1.Name != strings.TrimSuffix(t0.Name, "!0")+"!1" {
 		return blob{}, false
 	}
